@@ -1,218 +1,23 @@
 //! C06 — static handlers never leave their directory and serve what is inside it intact.
 //! Exhaustive over request paths composed from a segment menu (dot segments, encodings, NUL,
 //! absolute components, names with spaces/unicode/dots) x directory trees x route prefixes, against
-//! a reference resolver, with canary files outside the root (DESIGN.md §3 C06).
+//! a reference resolver, with canary files outside the root (DESIGN.md §3 C06). Trees, paths,
+//! reference and judge live in c06_gen.rs (shared with the tokio runner).
 
+pub use crate::props::c06_gen::*;
 use crate::props::c09::state_from;
-use crate::report::{show, Ctx, Stats};
-use humphrey::handlers::{serve_as_file_path, serve_dir};
-use humphrey::http::address::Address;
-use humphrey::http::headers::Headers;
-use humphrey::http::method::Method;
-use humphrey::http::{Request, Response};
+use crate::report::{Ctx, Stats};
+use humphrey::handlers::{serve_as_file_path, serve_dir, serve_file};
 use humphrey_server::r#static::directory_handler;
 use rayon::prelude::*;
 use serde_json::json;
-use std::path::{Path, PathBuf};
 use std::sync::Arc;
-
-const CANARY: &[u8] = b"CANARY-OUTSIDE-THE-ROOT";
-
-/// (relative path, content) of the full tree; subsets are taken by index mask
-pub const MENU: [(&str, &[u8]); 9] = [
-    ("a.txt", b"content of a.txt"),
-    ("b", b"no extension"),
-    ("c.tar.gz", b"\x1f\x8b multi-dot"),
-    ("sp ace.html", b"<p>space</p>"),
-    ("\u{fc}.css", b"u-umlaut {}"),
-    ("d/index.html", b"<index d>"),
-    ("e/index.htm", b"<index e htm>"),
-    ("f/.keep", b"keep"),
-    ("d/x.js", b"js();"),
-];
-
-pub fn make_tree(base: &Path, mask: u32) -> PathBuf {
-    let _ = std::fs::remove_dir_all(base);
-    let root = base.join("parent").join("root");
-    std::fs::create_dir_all(&root).unwrap();
-    std::fs::write(base.join("parent").join("canary.txt"), CANARY).unwrap();
-    std::fs::write(base.join("canary.txt"), CANARY).unwrap();
-    std::fs::write(base.join("parent").join("rootx"), CANARY).unwrap();
-    for (i, (p, c)) in MENU.iter().enumerate() {
-        if mask & (1 << i) != 0 {
-            let f = root.join(p);
-            std::fs::create_dir_all(f.parent().unwrap()).unwrap();
-            std::fs::write(f, c).unwrap();
-        }
-    }
-    root
-}
-
-fn request(uri: &str) -> Request {
-    Request { method: Method::Get, uri: uri.to_string(), query: String::new(), version: "HTTP/1.1".into(), headers: Headers::new(), content: None, address: Address::new("127.0.0.1:1").unwrap() }
-}
-
-fn pct_decode(s: &str) -> Option<Vec<u8>> {
-    crate::props::c18::ref_pct_decode(s.as_bytes())
-}
-
-#[derive(Debug, PartialEq, Clone)]
-pub enum Want {
-    /// exactly this file
-    File(PathBuf),
-    Redirect(String),
-    NotFound,
-    /// the statement only demands that nothing outside the root is returned
-    AnythingInside,
-}
-
-fn ctype(p: &Path) -> Option<&'static str> {
-    match p.extension().and_then(|e| e.to_str()) {
-        Some("html") | Some("htm") => Some("text/html"),
-        Some("css") => Some("text/css"),
-        Some("js") => Some("text/javascript"),
-        Some("txt") => Some("text/plain"),
-        _ => None,
-    }
-}
-
-/// reference for serve_dir and the server's directory routes: `rest` is the path after the route prefix
-pub fn resolve_dir(root: &Path, rest: &str, full_uri: &str) -> Want {
-    let Some(dec) = pct_decode(rest) else { return Want::NotFound };
-    let Ok(dec) = String::from_utf8(dec) else { return Want::NotFound };
-    if dec.contains("..") || dec.contains(':') {
-        return Want::NotFound;
-    }
-    if dec.contains('\0') {
-        return Want::NotFound;
-    }
-    let rel = dec.trim_start_matches('/');
-    if rel.is_empty() || rel.ends_with('/') {
-        for idx in ["index.html", "index.htm"] {
-            let p = root.join(format!("{}{}", rel, idx));
-            if p.is_file() {
-                return Want::File(p);
-            }
-        }
-        return Want::NotFound;
-    }
-    let p = root.join(rel);
-    if p.is_file() {
-        Want::File(p)
-    } else if p.is_dir() {
-        Want::Redirect(format!("{}/", full_uri))
-    } else {
-        Want::NotFound
-    }
-}
-
-/// reference for serve_as_file_path (no decoding)
-pub fn resolve_literal(root: &Path, uri: &str) -> Want {
-    if uri.contains("..") {
-        return Want::AnythingInside;
-    }
-    if uri.contains('\0') {
-        return Want::NotFound;
-    }
-    let rel = uri.strip_prefix('/').unwrap_or(uri);
-    let p = PathBuf::from(format!("{}/{}", root.display(), rel));
-    if p.is_file() && !uri.contains(':') {
-        Want::File(p)
-    } else if p.is_file() {
-        Want::AnythingInside
-    } else {
-        Want::NotFound
-    }
-}
-
-fn judge(s: &mut Stats, handler: &str, tree: u32, uri: &str, want: &Want, resp: std::thread::Result<Response>) {
-    s.evaluations += 1;
-    s.transitions += 1;
-    let ctx = |what: String, r: Option<&Response>| {
-        json!({"handler": handler, "tree_mask": tree, "uri": uri, "what": what, "expected": format!("{:?}", want), "status": r.map(|r| u16::from(r.status_code)), "body": r.map(|r| show(&r.body[..r.body.len().min(60)]))})
-    };
-    let r = match resp {
-        Ok(r) => r,
-        Err(_) => {
-            s.violation(format!("[{}] handler panicked", handler), || ctx("panic".into(), None));
-            return;
-        }
-    };
-    if r.body.windows(6).any(|w| w == b"CANARY") {
-        s.violation(format!("[{}] a file outside the directory was served", handler), || ctx("canary marker in the body".into(), Some(&r)));
-        return;
-    }
-    let status = u16::from(r.status_code);
-    match want {
-        Want::AnythingInside => s.outcome("unspecified-but-inside"),
-        Want::NotFound => {
-            if status == 200 {
-                s.violation(format!("[{}] content served for a path that names no file in the directory", handler), || ctx("200".into(), Some(&r)));
-            } else {
-                s.outcome("not-found");
-            }
-        }
-        Want::Redirect(loc) => {
-            if status != 301 || r.headers.get("Location") != Some(loc.as_str()) {
-                s.violation(format!("[{}] a directory path without trailing slash is not redirected to the slash form", handler), || ctx(format!("Location {:?}", r.headers.get("Location")), Some(&r)));
-            } else {
-                s.outcome("redirect");
-            }
-        }
-        Want::File(p) => {
-            let bytes = std::fs::read(p).unwrap_or_default();
-            if status != 200 || r.body != bytes {
-                let class = if status == 200 { "the wrong file's bytes were served" } else { "a file inside the directory is not served by its own path" };
-                s.violation(format!("[{}] {}", handler, class), || ctx(format!("expected {} bytes of {:?}", bytes.len(), p.file_name()), Some(&r)));
-                return;
-            }
-            if let Some(ct) = ctype(p) {
-                if r.headers.get("Content-Type").map(|v| v.split(';').next().unwrap_or("").trim()) != Some(ct) {
-                    s.violation(format!("[{}] wrong Content-Type for the file's extension", handler), || ctx(format!("{:?} expected {}", r.headers.get("Content-Type"), ct), Some(&r)));
-                    return;
-                }
-            }
-            s.outcome("file");
-        }
-    }
-}
-
-pub const SEGS: [&str; 24] = [
-    "a.txt", "b", "c.tar.gz", "sp ace.html", "\u{fc}.css", "d", "e", "f", "index.html", "x.js", ".", "..", "...", "", "%2e%2e", "%2E.", ".%2e", "%2f", "%5c", "%00", "%252e%252e", "%c0%ae", "..%2f", "C:",
-];
-
-fn encode_all(seg: &str) -> String {
-    seg.bytes().map(|b| format!("%{:02X}", b)).collect()
-}
-
-fn paths(depth: usize) -> Vec<String> {
-    let mut out = vec!["/".to_string(), "".to_string()];
-    let mut frontier: Vec<String> = vec!["".into()];
-    for _ in 0..depth {
-        let mut next = vec![];
-        for f in &frontier {
-            for s in SEGS {
-                next.push(format!("{}/{}", f, s));
-            }
-        }
-        for p in &next {
-            out.push(p.clone());
-            out.push(format!("{}/", p));
-        }
-        frontier = next;
-    }
-    // absolute components and the sibling whose name extends the root's
-    for extra in ["//etc/passwd", "/etc/passwd", "/../rootx", "/..%2frootx", "/%2e%2e/canary.txt", "/../canary.txt", "/../../canary.txt", "/d/../../canary.txt", "/d/..%2f..%2fcanary.txt", "/.%2e/canary.txt", "/%2e%2e%2fcanary.txt", "/..\\canary.txt", "/d/%2e%2e/%2e%2e/canary.txt", "/%252e%252e/canary.txt", "/%c0%ae%c0%ae/canary.txt", "/\0/../canary.txt"] {
-        out.push(extra.to_string());
-    }
-    out
-}
 
 pub fn run(mut cx: Ctx) -> ! {
     cx.rule = "every request path of <= 2 (3) segments over a 24-segment menu (file and directory names incl. spaces, unicode and multi-dot, `.`, `..`, `...`, empty, %2e%2e, %2E., .%2e, %2f, %5c, %00, %252e%252e, overlong %c0%ae, ..%2f, C:), with and without trailing slash, as written and fully percent-encoded, plus absolute and sibling-prefix traversal paths, is given to serve_dir (3 route prefixes), serve_as_file_path and the server's directory_handler (cache off and on) for 12 (40) directory trees with canary files next to and above the root; a reference resolver decides file / 301 / 404, and no response may contain canary bytes; states = (tree, path) pairs, transitions = handler calls; non-trivial = paths the reference resolves to a file or redirect, or that contain a dot-dot in any spelling".into();
     let quick = cx.quick();
     let depth = cx.pick(3, 4);
-    let masks: Vec<u32> = if quick { vec![0x1ff, 0x000, 0x001, 0x020, 0x040, 0x080, 0x160, 0x01f, 0x1e0, 0x0a5, 0x15a, 0x121] } else { (0..40).map(|i| (i * 37 + 0x1ff * (i % 2)) as u32 & 0x1ff).chain([0x1ff, 0]).collect() };
+    let masks = masks(quick);
     cx.bound("path_segments", depth);
     cx.bound("trees", masks.len());
     let ps = paths(depth);
@@ -265,6 +70,26 @@ pub fn run(mut cx: Ctx) -> ! {
                     }
                 }
             }
+            // serve_file: the configured file and nothing else, whatever the request path says; and
+            // serve_as_file_path configured with a trailing slash
+            let h_lit_slash = serve_as_file_path::<()>(root_slash);
+            for uri in ["/a.txt", "/d/x.js", "/d/", "/../canary.txt", "/nope"] {
+                s.states += 1;
+                let want = resolve_literal(&root, uri);
+                let r = std::panic::catch_unwind(std::panic::AssertUnwindSafe(|| h_lit_slash(request(uri), Arc::new(()))));
+                judge(&mut s, "serve_as_file_path (root with trailing slash)", mask, uri, &want, r);
+            }
+            for (i, (rel, _)) in MENU.iter().enumerate() {
+                let fp: &'static str = Box::leak(format!("{}/{}", root_s, rel).into_boxed_str());
+                let h = serve_file::<()>(fp);
+                let want = if mask & (1 << i) != 0 { Want::File(fp.into()) } else { Want::NotFound };
+                for uri in ["/", "/x", "/../canary.txt", "/%2e%2e/canary.txt"] {
+                    s.states += 1;
+                    s.nontrivial += 1;
+                    let r = std::panic::catch_unwind(std::panic::AssertUnwindSafe(|| h(request(uri), Arc::new(()))));
+                    judge(&mut s, "serve_file", mask, uri, &want, r);
+                }
+            }
             let _ = std::fs::remove_dir_all(&base);
             s.sample(|| json!({"tree_mask": mask, "example_paths": ps.iter().skip(40).step_by(977).take(4).collect::<Vec<_>>()}));
             s
@@ -275,6 +100,8 @@ pub fn run(mut cx: Ctx) -> ! {
         });
     let _ = std::fs::remove_dir_all(&base0);
     cx.stats.merge(part);
+    // the tokio runtime's own copies of serve_dir / serve_as_file_path / serve_file
+    crate::tokio_twin::merge(&mut cx, "C06");
     cx.assume("symbolic links inside the root are not part of the generated trees");
     cx.assume("for serve_as_file_path, paths containing `..` or `:` are only held to `nothing from outside the root` (the statement's converse clause excludes them)");
     cx.finish()
